@@ -23,6 +23,7 @@ ACCEPT = [
     'SELECT b, d, sum(a) FROM #t WHERE a = 1 GROUP BY b, d PIVOT BY b, d', 'SELECT b, d, sum(a) FROM #t WHERE a = 1 GROUP BY 1, 2 PIVOT BY 1, 2',
     'SELECT a FROM #t WHERE a > %s', 'SELECT o > 1 FROM #t', 'SELECT length(b) FROM #t', 'SELECT a FROM #t LIMIT 0', 'SELECT DISTINCT a FROM #t',
     'SELECT * FROM #t', 'SELECT 1', 'SELECT a FROM #t WHERE b ~ "x"', 'SELECT a FROM (SELECT a FROM #t)',
+    'SELECT b, d, sum(a) FROM #t GROUP BY b, d PIVOT BY b, d', 'SELECT d, b, count(*) FROM #t GROUP BY 1, 2 PIVOT BY 1, 2',   # both rows: NULL pivot values
     'SELECT a, sum(c) FROM #t GROUP BY a, a', 'SELECT a, b, sum(c) FROM #t GROUP BY a, b, a', 'SELECT a, sum(c) FROM #t GROUP BY 1, a',
     'SELECT a FROM #t WHERE a IN (SELECT a FROM #t WHERE a IN (SELECT a FROM #t))', 'SELECT a FROM (SELECT a FROM (SELECT a FROM #t))',
 ]
